@@ -42,3 +42,21 @@ pub fn seed_from_env() -> u64 {
 pub fn arg_value(args: &[String], key: &str) -> Option<String> {
     args.iter().position(|a| a == key).and_then(|i| args.get(i + 1).cloned())
 }
+
+/// Root of the truth checkout the harness was built against (overridable for mutation sandboxes).
+pub fn repo_root() -> String {
+    std::env::var("VERIF_REPO").unwrap_or_else(|_| "/repo".to_string())
+}
+
+/// Scratch directory for a property (under /verif/work, or $VERIF_WORK).
+pub fn work_dir(prop: &str) -> std::path::PathBuf {
+    let base = std::env::var("VERIF_WORK").unwrap_or_else(|_| {
+        let exe = std::env::current_exe().ok();
+        // <verif>/harness/target/debug/<bin>  ->  <verif>/work
+        exe.and_then(|e| e.ancestors().nth(4).map(|p| p.join("work").to_string_lossy().to_string()))
+            .unwrap_or_else(|| "/verif/work".to_string())
+    });
+    let d = std::path::PathBuf::from(base).join(prop);
+    let _ = std::fs::create_dir_all(&d);
+    d
+}
